@@ -51,4 +51,17 @@ def handleIdTok (l : Line) : List Verdict :=
     pure (verdictsOf (cmp "session created" created model) viol)
   r.getD [Verdict.bad "idtok"]
 
+/-- concurrent validations of one token under different login cookies: the decision for each cookie is the sequential one (the model's), whatever runs beside it -/
+def handleIdTokBurst (l : Line) : List Verdict :=
+  let r : Option (List Verdict) := do
+    let kind ← l.get? "kind"
+    let phase ← l.get? "phase"
+    let n ← l.nat? "n"
+    let wa ← l.nat? "wrongaccept"
+    let wr ← l.nat? "wrongreject"
+    let reason := if kind == "othernonce" then "C03.accepted.nonce" else if kind == "higherlevel" then "C03.accepted.acr_low" else "C03.accepted.sig"
+    pure (verdictsOf (if wr > 0 then [s!"{phase}: a token passing every check was rejected {wr} times in {n} validations ({kind})"] else [])
+      (if wa > 0 then [(reason, s!"{phase}: accepted {wa} times in {n} validations although the check fails for this login attempt ({kind})")] else []))
+  r.getD [Verdict.bad "idtokburst"]
+
 end Ww.Driver
